@@ -446,7 +446,7 @@ func vGenScenario(mode string, seed, idx int) *vScenario {
 	sc.zc = [2]bool{r.chance(40), r.chance(40)}
 	sc.mtu = uint32(r.pick(1200, 1200, 1228, 576, 1500, 8192, 256)) // receiveMTU is 8192: larger packets cannot be received by pion itself
 	sc.rcvBuf = uint32(r.pick(0, 0, 1<<20, 65536, 32768, 16384))
-	sc.blockWrite = r.chance(15)
+	sc.blockWrite = r.chance(15) || (mode == "api" && r.chance(50))
 	sc.bothClients = r.chance(20)
 	for i := range sc.tsn {
 		switch r.n(4) {
@@ -461,7 +461,7 @@ func vGenScenario(mode string, seed, idx int) *vScenario {
 	ns := 1 + r.n(3)
 	for i := 0; i < ns; i++ {
 		st := vStreamSpec{id: uint16(1 + i*2 + r.n(2)), dir: r.n(2)}
-		if mode == "transfer" || mode == "shutdown" || mode == "reset" {
+		if mode == "transfer" || mode == "shutdown" || mode == "reset" || mode == "api" {
 			// reliable streams; ordering varies
 			st.unordered = r.chance(30)
 		}
@@ -802,22 +802,43 @@ func vLeakedGoroutines() []string {
 	return out
 }
 
-// reader drains one stream until EOF/error, logging every message.
+// reader drains one stream until EOF/error, logging every message. In api mode it starts with a
+// buffer that is too small and arms read deadlines that expire while no data is available.
 func (r *vRun) reader(side int, s *Stream, wg *sync.WaitGroup, bufSize int) {
 	defer wg.Done()
+	api := r.sc.mode == "api"
+	ar := &vrand{s: uint64(r.sc.seed)*17 + uint64(r.sc.idx)*5 + uint64(s.StreamIdentifier())}
+	if api {
+		bufSize = 1 + ar.n(64)
+	}
 	buf := make([]byte, bufSize)
 	for {
+		if api && ar.chance(30) {
+			_ = s.SetReadDeadline(time.Now().Add(time.Duration(ar.pick(0, 1, 1000, 200000, 5000000)) * time.Microsecond))
+		}
 		n, ppi, err := s.ReadSCTP(buf)
 		if err != nil {
 			if errors.Is(err, io.ErrShortBuffer) {
-				buf = make([]byte, len(buf)*2+1)
-				r.logf("e2e rerr %d %d -> short", side, s.StreamIdentifier())
+				r.logf("e2e rerr %d %d -> short %d", side, s.StreamIdentifier(), len(buf))
+				if api && ar.chance(50) {
+					buf = make([]byte, len(buf)+1+ar.n(4000)) // may still be too small: tried again
+				} else {
+					buf = make([]byte, len(buf)*2+1)
+				}
+				continue
+			}
+			if api && errors.Is(err, os.ErrDeadlineExceeded) {
+				r.logf("e2e rerr %d %d -> deadline", side, s.StreamIdentifier())
+				_ = s.SetReadDeadline(time.Time{})
 				continue
 			}
 			r.logf("e2e rerr %d %d -> %s", side, s.StreamIdentifier(), vErrClass(err))
 			return
 		}
 		r.logf("e2e r %d %d %d %d %d", side, s.StreamIdentifier(), uint32(ppi), n, vHash(buf[:n]))
+		if api && ar.chance(30) {
+			buf = make([]byte, 1+ar.n(256)) // shrink again
+		}
 	}
 }
 
@@ -896,9 +917,23 @@ func (r *vRun) runTransfer() {
 				if m.gapUs > 0 {
 					time.Sleep(time.Duration(m.gapUs) * time.Microsecond)
 				}
+				if sc.mode == "api" {
+					r.apiBadCalls(i, streams[i], mi)
+				}
 				p := vPayload(uint64(sc.seed)<<32|uint64(sc.idx)<<16|uint64(mi), m.size)
+				if sc.mode == "api" && sc.blockWrite && mi%3 == 0 {
+					_ = streams[i].SetWriteDeadline(time.Now().Add(time.Duration(1+mi%5) * time.Millisecond))
+				}
 				n, err := streams[i].WriteSCTP(p, m.ppi)
-				r.logf("e2e w %d %d %d %d %d %d -> %d %s", sc.streams[i].dir, sc.streams[i].id, seq, uint32(m.ppi), m.size, vHash(p), n, vErrClass(err))
+				after := 0
+				if sc.blockWrite && err == nil {
+					// blocking mode: on return everything written earlier has left the pending queue
+					r.as[sc.streams[i].dir].lock.RLock()
+					after = r.as[sc.streams[i].dir].pendingQueue.getNumBytes()
+					r.as[sc.streams[i].dir].lock.RUnlock()
+				}
+				r.logf("e2e w %d %d %d %d %d %d -> %d %s %d", sc.streams[i].dir, sc.streams[i].id, seq, uint32(m.ppi), m.size, vHash(p), n, vErrClass(err), after)
+				_ = streams[i].SetWriteDeadline(time.Time{})
 				seq++
 			}
 		}()
@@ -925,6 +960,35 @@ func (r *vRun) runTransfer() {
 		r.link.ends[side].fail()
 	}
 	rwg.Wait()
+}
+
+// apiBadCalls issues calls that must be rejected or must have no effect (C18) before message mi.
+func (r *vRun) apiBadCalls(i int, s *Stream, mi int) {
+	sc := r.sc
+	br := &vrand{s: uint64(sc.seed)*131 + uint64(sc.idx)*7 + uint64(mi)*3 + uint64(i)}
+	dir, id := sc.streams[i].dir, sc.streams[i].id
+	logw := func(kind string, p []byte, n int, err error) {
+		r.logf("e2e wbad %s %d %d %d %d -> %d %s", kind, dir, id, len(p), vHash(p), n, vErrClass(err))
+	}
+	if br.chance(25) {
+		p := vPayload(uint64(mi)+77, int(r.as[dir].MaxMessageSize())+1+br.n(3))
+		n, err := s.WriteSCTP(p, PayloadTypeWebRTCBinary)
+		logw("oversize", p, n, err)
+	}
+	if br.chance(25) {
+		n, err := s.WriteSCTP([]byte{}, PayloadTypeWebRTCBinary)
+		logw("empty", nil, n, err)
+	}
+	if br.chance(15) {
+		// a stream of its own that is closed at once: writes on it must fail and never be delivered
+		cs, err := r.as[dir].OpenStream(uint16(1000+mi*8+i), PayloadTypeWebRTCBinary)
+		if err == nil {
+			_ = cs.Close()
+			p := vPayload(uint64(mi)+99, 40)
+			n, err := cs.WriteSCTP(p, PayloadTypeWebRTCBinary)
+			logw("closedstream", p, n, err)
+		}
+	}
 }
 
 // waitDrain waits for the link to heal and for everything to be acknowledged (bounded virtual time).
@@ -1052,3 +1116,4 @@ func vE2EMain(t *testing.T, mode string) {
 func TestVerifE2ETransfer(t *testing.T) { vE2EMain(t, "transfer") }
 func TestVerifE2EPR(t *testing.T)       { vE2EMain(t, "pr") }
 func TestVerifE2EShutdown(t *testing.T) { vE2EMain(t, "shutdown") }
+func TestVerifE2EAPI(t *testing.T)      { vE2EMain(t, "api") }
